@@ -288,10 +288,13 @@ def kde_multivariate(events_x, events_y, xout=None, yout=None, bw=None):
         bw = (bin_width_doane(events_x) / 2,
               bin_width_doane(events_y) / 2)
 
-    positions = np.vstack([xout.flatten(), yout.flatten()])
-    estimator_ly = KDEMultivariate(data=[events_x.flatten(),
-                                         events_y.flatten()],
-                                   var_type='cc', bw=bw)
+    # Use shape (nobs, k_vars): an array of shape (k_vars, nobs) is only
+    # transposed by statsmodels if nobs != k_vars, i.e. exactly two
+    # positions (or events) would be interpreted as (x0, x1), (y0, y1).
+    positions = np.column_stack([xout.flatten(), yout.flatten()])
+    estimator_ly = KDEMultivariate(
+        data=np.column_stack([events_x.flatten(), events_y.flatten()]),
+        var_type='cc', bw=bw)
 
     density = estimator_ly.pdf(positions)
     return density.reshape(xout.shape)
